@@ -259,7 +259,8 @@ SymOrder == <<"strArg", "listArg", "listDef", "shellStr", "envStr", "fileStr", "
               "exitCode", "numLines", "lineNum", "lineNums", "equalsStr", "matchesRx", "pathExists", "textMatcher",
               "textTransformer", "intMatcher", "lineMatcher",
               "textMatcherAnd", "intMatcherOr", "lineMatcherAnd", "textTransformerSeq",
-              "defStr", "hereDoc", "replaceStr", "runArg", "fileMatcher", "filesMatcher", "pathRelDef", "pathRelDef2">>
+              "defStr", "hereDoc", "replaceStr", "runArg", "fileMatcher", "filesMatcher", "pathRelDef", "pathRelDef2", "fileDestSym">>
+\* ("fileDestSym": the suite creates a file whose destination is relative to a path symbol of the case)
 \* ("pathRelDef": a PATH defined by the suite relative to a path symbol of the case (-rel SYMBOL), "pathRelDef2":
 \*  through one more definition of the suite)
 \* (the last four: the case's matcher / transformer as an OPERAND of && / || / | in the suite's instruction)
@@ -271,7 +272,7 @@ AllSymLog == {"strArg", "listArg", "listDef", "shellStr", "envStr", "fileStr", "
 AllSymAssert == {"exitCode", "numLines", "lineNum", "lineNums", "equalsStr", "matchesRx", "pathExists", "textMatcher",
                  "textTransformer", "intMatcher", "lineMatcher",
                  "textMatcherAnd", "intMatcherOr", "lineMatcherAnd", "textTransformerSeq", "fileMatcher", "filesMatcher",
-                 "pathRelDef", "pathRelDef2"}
+                 "pathRelDef", "pathRelDef2", "fileDestSym"}
 AllSymKinds == {SymOrder[j] : j \in DOMAIN SymOrder}
 \* "vbad": values of which the INTEGER and the REGEX are ill-formed (the others are values like any other): a case
 \* that gives them to an instruction of the suite that needs an INTEGER / a REGEX ends in VALIDATION_ERROR before
